@@ -17,6 +17,8 @@ S1 = b'1.000000-10-100-33188-0-0'
 S2 = b'2.000000-10-100-33188-0-0'      # differs from S1 in mtime  (=> manual override when compared with S1)
 S3 = b'1.000000-10-100-33261-0-0'      # differs from S1 only in st_mode (dirty, but not an override)
 S4 = b'1.000000-11-100-33188-0-0'      # same mtime as S1, different size (cp -p / touch -r over an edited file): an override
+S_LINK = b'7.000000-5-555-41471-0-0'    # a symbolic link (lstat) that points to a regular file with stamp S_LINK_TARGET
+S_LINK_TARGET = b'6.000000-44-556-33188-0-0'
 S_DIR = b'dir'
 FILE_COLS = ['rowid', 'name', 'is_generated', 'is_override', 'checked_runid', 'changed_runid', 'failed_runid', 'stamp', 'csum']
 
@@ -113,6 +115,11 @@ class DBWorld(World):
         self.ev('stat', name=bytes(name).decode('latin-1'), follow=follow, result=None if st is None else bytes(st).decode())
         if st is None:
             return err(io_error('NotFound'))
+        if tuple(st) == tuple(S_LINK):
+            if follow:
+                st = S_LINK_TARGET
+            else:
+                return ok(Opaque('Metadata', {'stamp': tuple(st), 'is_dir': False, 'is_symlink': True, 'name': name}))
         return ok(Opaque('Metadata', {'stamp': tuple(st), 'is_dir': tuple(st) == tuple(S_DIR), 'is_symlink': False, 'name': name}))
 
     def exists(self, eng, path):
@@ -394,6 +401,7 @@ def install_stubs(eng):
     eng.summaries['Metadata::file_type'] = lambda e, ci, a, sp: Opaque('FileType', deref_all(a[0]).data)
     eng.summaries['FileType::is_symlink'] = lambda e, ci, a, sp: deref_all(a[0]).data['is_symlink']
     eng.summaries['Metadata::is_dir'] = lambda e, ci, a, sp: deref_all(a[0]).data['is_dir']
+    eng.summaries['Metadata::is_file'] = lambda e, ci, a, sp: not deref_all(a[0]).data['is_dir'] and not deref_all(a[0]).data['is_symlink']
 
 
 def file_struct_fields(eng, f):
